@@ -188,7 +188,9 @@ class EOFRotator(EOF):
         scores = scores * modes_sign
 
         # Store the results
-        self.model_data.add(model.data["norms"], "singular_values")
+        # NOTE: rename a copy; ``DataContainer.add`` sets the name of the array it is given
+        # and the model's "norms" entry must keep its own name to stay serializable
+        self.model_data.add(model.data["norms"].rename("singular_values"), "singular_values")
         self.model_data.add(model.data["components"], "components")
 
         # Assigning input data to the Rotator object allows us to inherit some functionalities from the original model
